@@ -245,7 +245,7 @@ def correspond(ctx, rows, const, tag):
     order = [j for c in range(k) for j in order[c::k]]
     cases = [cases[j] for j in order]
     idx = [idx[j] for j in order]
-    fails, err = vlib.coq_eval_cases(tag, IMPORTS, "hl_obs", "hl_eqb", cases, shard=max(50, -(-len(cases) // k)))
+    fails, err = vlib.coq_eval_cases(tag, IMPORTS, "hl_obs", "hl_eqb", cases, shard=max(50, -(-len(cases) // k)), timeout=3000 if len(cases) > 8000 else 900)
     if err:
         ctx.broken.append("correspondence C10: model evaluation failed")
         ctx.log(err[-3000:])
